@@ -25,7 +25,10 @@ def masks_upto(k, width=13):
 # -------------------------------------------------------------------------------------------------
 # T
 
-def premise_tables(ctx, rule="T"):
+def premise_tables(ctx, rule="T", mode="exact"):
+    """mode 'exact': every reachable cell equals the oracle ordinal (C01, C02);
+    'category': every reachable cell lies in the oracle's category range (C13);
+    'shape': lengths, ascending products, zero cells for fewer than five ranks (C05)."""
     rep, pdb = ctx.rep, ctx.pdb
     FL = pdb.const_val(LOOKUPS["FLUSHES"])
     U5 = pdb.const_val(LOOKUPS["UNIQUE_5"])
@@ -34,33 +37,43 @@ def premise_tables(ctx, rule="T"):
     flushes, unique5, prod = oracle.expected_tables()
     where = "src/lookups"
     n = 0
-    for m, v in sorted(flushes.items()):
-        ok = m < len(FL) and FL[m] == v
-        rep.ob(rule + ".flushes", "mask %#06x" % m, ok, "FLUSHES[%d] = %s, the flush/straight-flush class with these ranks has ordinal %d" % (m, FL[m] if m < len(FL) else "out of range", v), where + "/flushes.snip")
-        n += 1
-    for m, v in sorted(unique5.items()):
-        ok = m < len(U5) and U5[m] == v
-        rep.ob(rule + ".unique5", "mask %#06x" % m, ok, "UNIQUE_5[%d] = %s, the straight/high-card class with these ranks has ordinal %d" % (m, U5[m] if m < len(U5) else "out of range", v), where + "/unique5.snip")
-        n += 1
+    if mode == "exact":
+        same = lambda got, exp: got == exp
+        what = "ordinal %d"
+    else:
+        same = lambda got, exp: oracle.category_of(got) == oracle.category_of(exp)
+        what = "an ordinal in the category of %d"
+    if mode in ("exact", "category"):
+        for m, v in sorted(flushes.items()):
+            ok = m < len(FL) and same(FL[m], v)
+            rep.ob(rule + ".flushes", "mask %#06x" % m, ok, "FLUSHES[%d] = %s, the flush/straight-flush class with these ranks has %s" % (m, FL[m] if m < len(FL) else "out of range", what % v), where + "/flushes.snip")
+            n += 1
+        for m, v in sorted(unique5.items()):
+            ok = m < len(U5) and same(U5[m], v)
+            rep.ob(rule + ".unique5", "mask %#06x" % m, ok, "UNIQUE_5[%d] = %s, the straight/high-card class with these ranks has %s" % (m, U5[m] if m < len(U5) else "out of range", what % v), where + "/unique5.snip")
+            n += 1
     nz = 0
     for m in masks_upto(4):
         ok = m < len(U5) and U5[m] == 0
         rep.ob(rule + ".unique5-zero", "mask %#06x" % m, ok, "UNIQUE_5[%d] = %s must be 0: fewer than five distinct ranks have to fall through to the product search" % (m, U5[m] if m < len(U5) else "out of range"), where + "/unique5.snip")
         nz += 1
-    rep.ob(rule + ".products", "length", len(PR) == len(VA) == 4888, "PRODUCTS has %d entries, VALUES %d; expected 4888 each" % (len(PR), len(VA)), where)
+    rep.ob(rule + ".products", "length", len(PR) == len(VA), "PRODUCTS has %d entries, VALUES %d" % (len(PR), len(VA)), where)
     asc = [j for j in range(len(PR) - 1) if not PR[j] < PR[j + 1]]
     rep.ob(rule + ".products", "strictly ascending", not asc, "PRODUCTS is not strictly ascending at index %s" % asc[:3], where + "/products.snip")
     rep.evals(len(PR))
-    missing = sorted(set(prod) - set(PR))
-    extra = sorted(set(PR) - set(prod))
-    rep.ob(rule + ".products", "membership", not missing and not extra, "PRODUCTS misses %s and has unexpected %s" % (missing[:3], extra[:3]), where + "/products.snip")
-    for j in range(min(len(PR), len(VA))):
-        exp = prod.get(PR[j])
-        rep.ob(rule + ".values", "index %d" % j, VA[j] == exp, "VALUES[%d] = %d but the class with prime product %d has ordinal %s" % (j, VA[j], PR[j], exp), where + "/values.snip")
-    allv = set(flushes.values()) | set(unique5.values()) | {VA[j] for j in range(len(VA))}
-    rep.ob(rule + ".onto", "1..=7462", allv >= set(range(1, 7463)), "values never produced: %s" % sorted(set(range(1, 7463)) - allv)[:5], where)
-    rep.floor(rule + ".cells", n + nz + len(VA), 1287 + 1287 + 1093 + 4888)
-    rep.sample({"rule": rule, "flush_cells": len(flushes), "unique5_cells": len(unique5), "zero_cells": nz, "products": len(PR),
+    if mode in ("exact", "category"):
+        missing = sorted(set(prod) - set(PR))
+        extra = sorted(set(PR) - set(prod))
+        rep.ob(rule + ".products", "membership", not missing and not extra, "PRODUCTS misses %s and has unexpected %s" % (missing[:3], extra[:3]), where + "/products.snip")
+        for j in range(min(len(PR), len(VA))):
+            exp = prod.get(PR[j])
+            rep.ob(rule + ".values", "index %d" % j, exp is not None and same(VA[j], exp), "VALUES[%d] = %d but the class with prime product %d has %s" % (j, VA[j], PR[j], (what % exp) if exp else "no class"), where + "/values.snip")
+        n += len(VA)
+    if mode == "exact":
+        allv = set(flushes.values()) | set(unique5.values()) | {VA[j] for j in range(len(VA))}
+        rep.ob(rule + ".onto", "1..=7462", allv >= set(range(1, 7463)), "values never produced: %s" % sorted(set(range(1, 7463)) - allv)[:5], where)
+        rep.floor(rule + ".cells", n + nz, 1287 + 1287 + 1093 + 4888)
+    rep.sample({"rule": rule, "mode": mode, "flush_cells": len(flushes), "unique5_cells": len(unique5), "zero_cells": nz, "products": len(PR),
                 "example": {"FLUSHES[0x1F00]": FL[0x1F00] if len(FL) > 0x1F00 else None}})
     return FL, U5, PR, VA
 
@@ -88,6 +101,8 @@ def search_reachability(ctx, pdb, per_cell=False):
         raise Uncertified("missing function %s" % key)
     ex = Exec(pdb)
     cfg = ex.cfg(key)
+    if len(cfg.loops) == 0:
+        return search_closed_form(ctx, pdb, res)
     if len(cfg.loops) != 1:
         raise Uncertified("find_in_products: expected one loop, found %d" % len(cfg.loops), pdb.where(key))
     h = next(iter(cfg.loops))
@@ -269,6 +284,93 @@ def search_reachability(ctx, pdb, per_cell=False):
             else:
                 res.failures.append(("no successor", None, state, k, (a, b)))
     res.names = {("L%d" % l): mir["names"].get(str(l), "_%d" % l) for l in carried}
+    return res
+
+
+def search_closed_form(ctx, pdb, res):
+    """find_in_products without a loop of its own (library search routines): summarise it to a closed form and fold
+    that over every order cell of the key (plus wrapped-around aliases when the key is narrowed by a cast)."""
+    key = FIP
+    ex = Exec(pdb)
+    katom = atom("key", "usize")
+    ret, _st = ex.summarise(key, [katom], None, State())
+    obs = list(ex.obligations)
+    tables = set()
+    narrowing = False
+    for root in [ret] + [o.cond for o in obs] + [c for o in obs for c in o.pc]:
+        for x in walk(root):
+            if x[0] == "idx":
+                tables.add(x[1])
+            if x[0] == "tblref":
+                tables.add(x[1])
+            if x[0] == "cast" and x[1] is katom and INT_BITS.get(x[2], 64) < 64:
+                narrowing = True
+    if len(tables) != 1:
+        raise Uncertified("find_in_products searches tables %s" % sorted(tables), pdb.where(key))
+    P = list(pdb.table(next(iter(tables))))
+    res.table = P
+    N = len(P)
+    res.ncells = 2 * N + 1
+    res.names = {}
+    KMAX = (1 << 64) - 1
+
+    def reps(c):
+        if c & 1:
+            out = [P[c >> 1]]
+        else:
+            g = c >> 1
+            if g == 0:
+                out = [0, P[0] - 1] if P[0] > 0 else []
+            elif g == N:
+                out = [P[-1] + 1, KMAX] if P[-1] < KMAX else []
+            else:
+                out = [P[g - 1] + 1] if P[g] - P[g - 1] > 1 else []
+        return sorted(set(out))
+    for c in range(2 * N + 1):
+        ks = reps(c)
+        extra = []
+        if narrowing:
+            for k in ks:
+                for bits in (8, 16, 32):
+                    if k + (1 << bits) <= KMAX:
+                        extra.append((k + (1 << bits), 2 * N))  # the alias lives in some cell above: report it there
+        vals = set()
+        for k in ks:
+            res.transitions += 1
+            f = Fold(pdb, {"key": k})
+            failed = False
+            for o in obs:
+                try:
+                    if all(cval(f.ev(x)) for x in o.pc) and not cval(f.ev(o.cond)):
+                        res.failures.append((o.kind, o.line, {}, k, (c, c)))
+                        failed = True
+                        break
+                except IndexError:
+                    res.failures.append(("BoundsCheck (table index out of range)", o.line, {}, k, (c, c)))
+                    failed = True
+                    break
+            if failed:
+                continue
+            try:
+                vals.add(cval(f.ev(ret)))
+            except IndexError:
+                res.failures.append(("BoundsCheck (table index out of range)", None, {}, k, (c, c)))
+        if len(vals) == 1:
+            res.leaves.append((c, c, next(iter(vals))))
+        elif len(vals) > 1:
+            res.failures.append(("result differs inside one key cell", None, {}, ks[0], (c, c)))
+        for k, cc in extra:
+            f = Fold(pdb, {"key": k})
+            try:
+                v = cval(f.ev(ret))
+            except IndexError:
+                v = None
+            import bisect
+            j = bisect.bisect_left(P, k)
+            member = j < N and P[j] == k
+            if not member and v not in (0, None):
+                res.failures.append(("a key that is not in the table is reported as found at index %s (narrowing cast of the key)" % v, None, {}, k, (2 * N, 2 * N)))
+    res.states = 2 * N + 1
     return res
 
 
@@ -548,7 +650,8 @@ def upper_bound(bv, node):
 # -------------------------------------------------------------------------------------------------
 # R: residual folded over every class
 
-def premise_residual(ctx, fac, PR, rule="R"):
+def premise_residual(ctx, fac, PR, rule="R", mode="exact"):
+    """mode 'exact': value = ordinal for every class; 'nonzero': value != 0 for every class (C04)"""
     rep, pdb = ctx.rep, ctx.pdb
     if fac["slots_left"]:
         return
@@ -562,12 +665,17 @@ def premise_residual(ctx, fac, PR, rule="R"):
             got = cval(ctx.fold(resid, env))
         except IndexError as e:
             got = "panic(%s)" % e
-        if got != c["ordinal"]:
+        okc = (got == c["ordinal"]) if mode == "exact" else (isinstance(got, int) and got != 0)
+        if not okc:
             bad += 1
             first = first or (c, got)
     if first:
         c, got = first
-        rep.ob(rule + ".classes", "7462 classes", False, "a %s hand (%s, ranks %s%s) is given value %s instead of %d; %d classes are mis-ranked" % (c["cat"], c["name"], [oracle.RANK_CHARS[r] for r in c["ranks"]], " suited" if c["flush"] else "", got, c["ordinal"], bad), pdb.where(fac["key"]))
+        if mode == "exact":
+            msg = "a %s hand (%s, ranks %s%s) is given value %s instead of %d; %d classes are mis-ranked" % (c["cat"], c["name"], [oracle.RANK_CHARS[r] for r in c["ranks"]], " suited" if c["flush"] else "", got, c["ordinal"], bad)
+        else:
+            msg = "a valid %s hand (ranks %s%s) is given value %s: validated ranking must be non-zero for every valid hand (%d classes)" % (c["cat"], [oracle.RANK_CHARS[r] for r in c["ranks"]], " suited" if c["flush"] else "", got, bad)
+        rep.ob(rule + ".classes", "7462 classes", False, msg, pdb.where(fac["key"]))
     else:
         rep.ob(rule + ".classes", "7462 classes", True)
     rep.sample({"rule": rule, "classes": 7462, "example": {"ranks": "AKQJT suited", "value": 1}})
@@ -791,8 +899,34 @@ def check_C13(ctx):
             rep.ob("C13.deprecated-twin", fname, ok, "%s does not compute the same %s as the method" % (fname, "all-same-suit test" if pat == "F" else "rank mask"), pdb.where(fname))
     ctx.guard("C13.raw", raw)
 
-    # agreement with the ranked category: the tables that decide the category are pinned by the same oracle
-    tabs = ctx.guard("T", premise_tables, ctx)
+    # agreement with the ranked category: every reachable table cell lies in the category of its class, the search
+    # finds every product, and the evaluation factors through (rank mask, flush, product)
+    tabs = ctx.guard("T", premise_tables, ctx, "T", "category")
+    premise_search(ctx, "S", want_gap=False)
+    fac = ctx.guard("F", premise_factor, ctx)
+    if fac and tabs and not fac["slots_left"]:
+        def cats():
+            h_ = fip_handler(tabs[2])
+            bad = None
+            nb = 0
+            for c in oracle.classes():
+                env = {"M": c["mask"], "F": 1 if c["flush"] else 0, "P": c["product"], "$contract:find_in_products": h_}
+                try:
+                    got = cval(ctx.fold(fac["resid"], env))
+                except IndexError:
+                    got = -1
+                if oracle.category_of(got if isinstance(got, int) else -1) != c["cat"]:
+                    nb += 1
+                    bad = bad or (c, got)
+            rep.ob("C13.ranked-category", "7462 classes", nb == 0, "ranking a %s hand (ranks %s) gives value %s, which is named %s (%d classes)" % (
+                bad[0]["cat"] if bad else "", [oracle.RANK_CHARS[r] for r in bad[0]["ranks"]] if bad else "", bad[1] if bad else "", oracle.category_of(bad[1]) if bad and isinstance(bad[1], int) else "?", nb), pdb.where(fac["key"]))
+        ctx.guard("C13.ranked-category", cats)
+        # and the name given to a value is its category (C06's table, category granularity)
+        def names():
+            from .misc import name_class_dags, check_value_table
+            v, kn, kc, dn, dc = name_class_dags(ctx)
+            check_value_table(ctx, "C13.name-table", kn, dn, oracle.category_of, "determine_name")
+        ctx.guard("C13.name-table", names)
 
 
 def mask_ranks(m):
@@ -806,10 +940,15 @@ def perm_table_name(path):
     return path + "::FIVE_CARD_PERMUTATIONS"
 
 
-def bestof_loop(ctx, path, n, rule):
+def bestof_loop(ctx, path, n, rule, need):
     """Transformer-level analysis of the candidate loop in hand_rank_value_and_hand of Six/Seven.
     Returns a dict of facts or None (violations already reported)."""
     rep, pdb = ctx.rep, ctx.pdb
+
+    def ob(name, inst, ok, detail="", where_=""):
+        if name in need or name == "loop-shape":
+            return rep.ob(rule + "." + name, inst, ok, detail, where_)
+        return ok
     key, sty = ctx.method(path, "hand_rank_value_and_hand", HR)
     k5v, _ = ctx.method(FIVE, "hand_rank_value", HR)
     where = pdb.where(key)
@@ -817,7 +956,7 @@ def bestof_loop(ctx, path, n, rule):
     rep.fn(key)
     cfg = ex.cfg(key)
     if len(cfg.loops) != 1:
-        rep.ob(rule + ".loop-shape", short(path), False, "expected exactly one loop over the combination table, found %d" % len(cfg.loops), where)
+        ob("loop-shape", short(path), False, "expected exactly one loop over the combination table, found %d" % len(cfg.loops), where)
         return None
     h = next(iter(cfg.loops))
     hand = ctx.hand(path, n)
@@ -826,27 +965,27 @@ def bestof_loop(ctx, path, n, rule):
     st, fid = ex.enter(key, [href], st)
     pre = ex.run_segment(key, 0, st, fid, {h})
     if set(pre) != {h} or pre[h][0]:
-        rep.ob(rule + ".loop-shape", short(path), False, "the function can return before its candidate loop", where)
+        ob("loop-shape", short(path), False, "the function can return before its candidate loop", where)
         return None
     st0 = pre[h][1]
     frame0 = st0.frames[fid]
     st1 = st0.fork()
     outs1 = ex.run_segment(key, h, st1, fid, {h})
     if h not in outs1:
-        rep.ob(rule + ".loop-shape", short(path), False, "the loop body does not come back to its header", where)
+        ob("loop-shape", short(path), False, "the loop body does not come back to its header", where)
         return None
     frame1 = outs1[h][1].frames[fid]
     carried = [l for l in sorted(frame0) if l in frame1 and frame1[l] is not frame0[l]]
     iters = [l for l in carried if frame0[l][0] == "agg" and frame0[l][1][0] == "model"]
     if len(iters) != 1 or frame0[iters[0]][1][1] != "ArrayIter":
-        rep.ob(rule + ".loop-shape", short(path), False, "the loop does not iterate over a constant array by value", where)
+        ob("loop-shape", short(path), False, "the loop does not iterate over a constant array by value", where)
         return None
     l_it = iters[0]
     it0 = frame0[l_it]
     table = pdb.const_val(perm_table_name(path))
     rows = arr_of(it0[2][0])
     got_rows = [[cval(x) for x in arr_of(r)] for r in rows] if rows else None
-    rep.ob(rule + ".iterates-table", short(path), got_rows == [list(r) for r in table] and cval(it0[2][1]) == 0,
+    ob("iterates-table", short(path), got_rows == [list(r) for r in table] and cval(it0[2][1]) == 0,
            "the candidate loop does not iterate over the whole of %s from its first row" % perm_table_name(path).split("cards::")[-1], where)
     # symbolic header state
     row = agg(("array",), [atom("p%d" % j, "u8") for j in range(5)])
@@ -871,14 +1010,14 @@ def bestof_loop(ctx, path, n, rule):
     s_exit, names = sym_state([])
     outs_e = ex.run_segment(key, h, s_exit, fid, {h})
     if set(outs_e) != {"ret"} or outs_e["ret"][0]:
-        rep.ob(rule + ".loop-shape", short(path), False, "with the table exhausted the function does not simply return", where)
+        ob("loop-shape", short(path), False, "with the table exhausted the function does not simply return", where)
         return None
     retv = outs_e["ret"][1].frames[fid].get(0)
     if retv[0] != "agg" or len(retv[2]) != 2:
-        rep.ob(rule + ".result", short(path), False, "hand_rank_value_and_hand does not return a (value, hand) pair", where)
+        ob("result", short(path), False, "hand_rank_value_and_hand does not return a (value, hand) pair", where)
         return None
     l_best = next((l for l, a in names.items() if a is retv[2][0]), None)
-    rep.ob(rule + ".result-is-running-best", short(path), l_best is not None, "the returned value is not the running best value of the loop", where)
+    ob("result-is-running-best", short(path), l_best is not None, "the returned value is not the running best value of the loop", where)
     # witness: descending sort of the remembered hand
     l_hand = None
     wit = arr_of(retv[2][1])
@@ -898,10 +1037,10 @@ def bestof_loop(ctx, path, n, rule):
                 okw = False
                 break
         rep.evals(541)
-    rep.ob(rule + ".witness-sorted", short(path), okw, "the reported hand is not the remembered best candidate arranged in descending card order", where)
+    ob("witness-sorted", short(path), okw, "the reported hand is not the remembered best candidate arranged in descending card order", where)
     if l_best is None or l_hand is None:
         return None
-    rep.ob(rule + ".initial-best", short(path), frame0[l_best][0] == "c" and frame0[l_best][1] == 0, "the running best value does not start at 0 (no hand yet)", where)
+    ob("initial-best", short(path), frame0[l_best][0] == "c" and frame0[l_best][1] == 0, "the running best value does not start at 0 (no hand yet)", where)
     # one generic iteration
     s_it, names = sym_state([row])
     n_ob = len(ex.obligations)
@@ -909,10 +1048,10 @@ def bestof_loop(ctx, path, n, rule):
     body_obs = ex.obligations[n_ob:]
     early = outs.get("ret")
     if early is not None:
-        rep.ob(rule + ".no-early-exit", short(path), False,
+        ob("no-early-exit", short(path), False,
                "the candidate loop can be left before the table is exhausted (early return/break under condition %s): later candidates are never ranked" % describe_cond(early[0]), where)
     else:
-        rep.ob(rule + ".no-early-exit", short(path), True)
+        ob("no-early-exit", short(path), True)
     if h not in outs:
         return None
     g_back, st2 = outs[h]
@@ -921,12 +1060,12 @@ def bestof_loop(ctx, path, n, rule):
     calls = [x for x in walk(best2) if x[0] == "call" and x[1] == "fn:" + k5v]
     calls_h = [x for x in walk(hand2) if x[0] == "call" and x[1] == "fn:" + k5v]
     ok_one = len({id(x) for x in calls + calls_h}) == 1
-    rep.ob(rule + ".ranks-one-candidate", short(path), ok_one, "an iteration ranks %d distinct candidate hands (must rank exactly the selected one, once)" % len({id(x) for x in calls + calls_h}), where)
+    ob("ranks-one-candidate", short(path), ok_one, "an iteration ranks %d distinct candidate hands (must rank exactly the selected one, once)" % len({id(x) for x in calls + calls_h}), where)
     if not ok_one:
         return None
     X = calls[0]
     cand = X[2][0]
-    rep.ob(rule + ".candidate-is-five", short(path), cand[0] == "agg" and cand[1] == ("adt", FIVE, 0), "the ranked candidate is not a five-card hand", where)
+    ob("candidate-is-five", short(path), cand[0] == "agg" and cand[1] == ("adt", FIVE, 0), "the ranked candidate is not a five-card hand", where)
     other_atoms = set(atoms_of(best2)) - {names[l_best][1]} - set(atoms_of(cand))
     # decision table over the order types of (best so far, candidate value)
     batoms = [x[1] for x in arr_of(names[l_hand])]
@@ -963,19 +1102,30 @@ def bestof_loop(ctx, path, n, rule):
                 if goth not in (cand_v, old_v):
                     badw = badw or (bv_, xv, "remembered hand is neither the candidate nor the previous best")
     rep.evals(36)
-    rep.ob(rule + ".keeps-smallest-nonzero", short(path), badv is None,
+    ob("keeps-smallest-nonzero", short(path), badv is None,
            "with best so far %s and candidate value %s the loop keeps %s, the smallest non-zero value is %s" % (badv or (0, 0, 0, 0)), where)
-    rep.ob(rule + ".witness-follows-value", short(path), badw is None, "with best so far %s and candidate value %s: %s" % (badw or (0, 0, "")), where)
+    ob("witness-follows-value", short(path), badw is None, "with best so far %s and candidate value %s: %s" % (badw or (0, 0, "")), where)
+    # (C04) a non-zero candidate never leaves the running best at 0
+    badz = None
+    for bv_ in (0, 5):
+        for xv in (3, 5, 7):
+            env = dict(base_env)
+            env[names[l_best][1]] = bv_
+            env["$fn:" + k5v] = (lambda a, xv=xv: C(xv, "u16"))
+            env["$contract:find_in_products"] = lambda k: C(0, "usize")
+            if cval(evaluate(pdb, best2, env)) == 0:
+                badz = (bv_, xv)
+    ob("nonzero-preserving", short(path), badz is None, "with best so far %s and a candidate of value %s the running best becomes 0" % (badz or (0, 0)), where)
     # candidate slots come from the selected row of the receiver
     cs = arr_of(cand)
     okp = cs is not None and len(cs) == 5
     if okp:
-        for rowv in ([0, 1, 2, 3, 4], [n - 5 + j for j in range(5)], [0, 2, 3, n - 2, n - 1]):
+        for rowv in [list(r) for r in table]:
             env = dict(base_env)
             env.update({"p%d" % j: rowv[j] for j in range(5)})
             got = [cval(evaluate(pdb, x, env)) for x in cs]
             okp = okp and got == [100 + r for r in rowv]
-    rep.ob(rule + ".candidate-from-row", short(path), okp, "the ranked candidate is not made of the receiver's slots named by the current table row", where)
+    ob("candidate-from-row", short(path), okp, "the ranked candidate is not made of the receiver's slots named by the current table row", where)
     for o in body_obs:
         pass
     rep.sample({"rule": rule, "container": short(path), "loop_header_block": h, "carried_locals": carried,
@@ -987,13 +1137,25 @@ def describe_cond(g):
     return "(%d conjunct(s) on the candidate/best values)" % len(g)
 
 
-def check_bestof(ctx, rule, sizes=((SIX, 6), (SEVEN, 7))):
+NEED_MIN = {"iterates-table", "no-early-exit", "keeps-smallest-nonzero", "result-is-running-best", "initial-best",
+            "candidate-from-row", "ranks-one-candidate", "candidate-is-five"}
+NEED_WITNESS = {"witness-follows-value", "witness-sorted", "result-is-running-best", "ranks-one-candidate", "candidate-from-row",
+                "candidate-is-five"}
+
+
+def check_bestof(ctx, rule, need, table="complete", sizes=((SIX, 6), (SEVEN, 7))):
+    """table: 'complete' (every 5-subset once), 'shape' (rows are distinct in-range slot indexes), or None"""
     facts = {}
     for path, n in sizes:
         def one(path=path, n=n):
-            check_comb_table(ctx, rule + ".table", perm_table_name(path), n, 5, "src/cards/%s.rs" % short(path).lower(), ordered=False)
-            facts[path] = bestof_loop(ctx, path, n, rule)
-            check_selection(ctx, rule + ".selection", path, n)
+            if table == "complete":
+                check_comb_table(ctx, rule + ".table", perm_table_name(path), n, 5, "src/cards/%s.rs" % short(path).lower(), ordered=False)
+            elif table == "shape":
+                rows = [tuple(r) for r in ctx.pdb.const_val(perm_table_name(path))]
+                for i, r in enumerate(rows):
+                    ctx.rep.ob(rule + ".table-rows", "%s row %d" % (short(path), i), len(r) == 5 and len(set(r)) == 5 and all(0 <= x < n for x in r),
+                               "row %d = %s of the combination table does not name five distinct slots of the hand" % (i, list(r)), "src/cards/%s.rs" % short(path).lower())
+            facts[path] = bestof_loop(ctx, path, n, rule, need)
         ctx.guard(rule + "." + short(path), one)
     return facts
 
@@ -1001,7 +1163,7 @@ def check_bestof(ctx, rule, sizes=((SIX, 6), (SEVEN, 7))):
 def check_C02(ctx):
     rep = ctx.rep
     premise_layout(ctx)
-    check_bestof(ctx, "C02")
+    check_bestof(ctx, "C02", NEED_MIN)
     # candidates are ranked by the five-card evaluation of C01
     tabs = ctx.guard("T", premise_tables, ctx)
     premise_search(ctx, "S", want_gap=False)
@@ -1013,7 +1175,7 @@ def check_C02(ctx):
 
 def check_C09(ctx):
     rep, pdb = ctx.rep, ctx.pdb
-    facts = check_bestof(ctx, "C09")
+    facts = check_bestof(ctx, "C09", NEED_MIN)
     a, b = facts.get(SIX), facts.get(SEVEN)
     if a and b:
         rep.ob("C09.same-ranking", "Six/Seven", a["callee"] == b["callee"], "Six and Seven rank their candidates with different functions", "")
@@ -1024,7 +1186,7 @@ def check_C09(ctx):
 
 def check_C03(ctx):
     rep, pdb = ctx.rep, ctx.pdb
-    check_bestof(ctx, "C03")
+    check_bestof(ctx, "C03", NEED_WITNESS, table="shape")
     fac = ctx.guard("F", premise_factor, ctx)
     if fac:
         rep.ob("C03.five-identity", "Five", fac["witness"] is fac["hand"], "five-card ranking does not report the input hand unchanged: %s" % describe_slots(arr_of(fac["witness"]) if fac["witness"][0] == "agg" else None), pdb.where(fac["key"]))
@@ -1130,13 +1292,13 @@ def check_C04(ctx):
                 rep.ob("V.no-panic", "%s %s L%s" % (short(o.fn), o.kind, o.line), o.cond[0] == "c" and bool(o.cond[1]), "panic site on the validity path is not trivially safe", pdb.where(o.fn))
     ctx.guard("V.no-panic", nopanic)
     # on the valid edge the hand is made of distinct real cards: ranking returns (and is non-zero) by C01's premises
-    tabs = ctx.guard("T", premise_tables, ctx)
+    tabs = ctx.guard("T", premise_tables, ctx, "T", "shape")
     premise_search(ctx, "S", want_gap=False)
     fac = ctx.guard("F", premise_factor, ctx)
     if fac and tabs:
         discharge_residual_obligations(ctx, fac, "V.valid-edge-panic-site", max_ranks=5, PR=tabs[2])
-        ctx.guard("R", premise_residual, ctx, fac, tabs[2])
-    facts = check_bestof(ctx, "V.bestof")
+        ctx.guard("V.valid-is-nonzero", premise_residual, ctx, fac, tabs[2], "V.valid-is-nonzero", "nonzero")
+    facts = check_bestof(ctx, "V.bestof", {"nonzero-preserving", "result-is-running-best"}, table=None)
 
 
 def flat_or(x, out):
@@ -1160,7 +1322,7 @@ def check_C05(ctx):
         rep.ob("C05.slot-abstraction", "no bits above the rank field", all(w >> 29 == 0 for w in ws), "a card constant has bits above the rank field")
         rep.ob("C05.slot-abstraction", "6-bit prime field", all((w & 0xFF) < 64 for w in ws), "a card constant has a prime field above 63")
     ctx.guard("C05.slot-abstraction", slotfacts)
-    tabs = ctx.guard("T", premise_tables, ctx)
+    tabs = ctx.guard("T", premise_tables, ctx, "T", "shape")
     res = premise_search(ctx, "S", want_gap=True)
     fac = ctx.guard("F", premise_factor, ctx)
     PR = tabs[2] if tabs else None
@@ -1194,7 +1356,6 @@ def check_C05(ctx):
             rep.ob("C05.zero-is-invalid", "name(0)", enum_name(pdb, nm) == "Invalid", "the rank of value 0 is named %s" % enum_name(pdb, nm), pdb.where(kn))
         ctx.guard("C05.blank", blank)
     # Six / Seven: their own panic sites, with the five-card ranking cited compositionally
-    facts = check_bestof(ctx, "C05.bestof")
     for path, n in ((SIX, 6), (SEVEN, 7)):
         def own(path=path, n=n):
             key, sty = ctx.method(path, "hand_rank_value_and_hand", HR)
@@ -1211,7 +1372,7 @@ def check_C05(ctx):
             for x in walk(sm.ret):
                 if x[0] == "call" and x[1] == "fn:" + k5v:
                     cs = arr_of(x[2][0])
-                    rep.ob("C05.candidate-slots", short(path), cs is not None and all(c[0] == "atom" and c[1] in slots for c in cs), "a ranked candidate contains something other than copies of the receiver's slots", pdb.where(key), nontrivial=False)
+                    rep.ob("C05.candidate-slots", short(path), cs is not None and all(is_slot_copy(ctx, c, slots) for c in cs), "a ranked candidate contains something other than copies of the receiver's slots", pdb.where(key), nontrivial=False)
         ctx.guard("C05.own." + short(path), own)
     # remaining entry points: wiring only adds conversions without panic sites
     def entries():
@@ -1307,4 +1468,54 @@ def check_C08(ctx):
             img = b_or([b_and([("b", s_, mp[k]) for s_ in fz.slots]) for k in (12, 13, 14, 15)])
             sym = sym and img == fb
         rep.ob("C08.suit-blind", "24 relabellings", sym and not fac["slots_left"] and fz.found["F"] > 0, "the five-card value depends on suits other than through a test that is symmetric in the four suit bits", pdb.where(fac["key"]))
-    check_bestof(ctx, "C08.bestof")
+    ctx.guard("C08.suit-blind-selection", suit_blind_selection, ctx)
+
+
+def suit_blind_selection(ctx):
+    """Six/Seven: slot words reach the value only as members of ranked five-card candidates, and every candidate is
+    made of plain copies of the receiver's slots — so relabelling suits relabels every candidate consistently."""
+    rep, pdb = ctx.rep, ctx.pdb
+    k5v, _ = ctx.method(FIVE, "hand_rank_value", HR)
+    for path, n in ((SIX, 6), (SEVEN, 7)):
+        key, sty = ctx.method(path, "hand_rank_value_and_hand", HR)
+        sm = ctx.summ(key, [("r", ctx.hand(path, n))], sty, opaque={k5v})
+        val = sm.ret[2][0] if sm.ret[0] == "agg" else sm.ret
+        slots = {"s%d" % i for i in range(n)}
+        direct = set()
+        ncand = 0
+        okc = True
+        seen = set()
+        stack = [val]
+        while stack:
+            x = stack.pop()
+            if id(x) in seen:
+                continue
+            seen.add(id(x))
+            if x[0] == "call" and x[1] == "fn:" + k5v:
+                ncand += 1
+                cs = arr_of(x[2][0])
+                okc = okc and cs is not None and all(is_slot_copy(ctx, c, slots) for c in cs)
+                continue
+            if x[0] == "atom" and x[1] in slots:
+                direct.add(x[1])
+            stack.extend(children(x))
+        rep.ob("C08.suit-blind-selection", short(path), not direct and okc and ncand > 0,
+               "the %s value reads slot(s) %s directly or ranks candidates that are not plain copies of its slots" % (short(path), sorted(direct)), pdb.where(key))
+
+
+def is_slot_copy(ctx, node, slots):
+    """node is a receiver slot, or equal to one on every card-or-blank word (bits that are zero in all 53 constants
+    may be masked away)."""
+    if node[0] == "atom" and node[1] in slots:
+        return True
+    if ty_of(node) != "u32":
+        return False
+    kz = known_zero_mask(ctx)
+    try:
+        v = BitVec(ctx.pdb, known_zero={s_: kz for s_ in slots}).bv(node)
+    except Uncertified:
+        return False
+    for s_ in slots:
+        if v == [0 if (kz >> i) & 1 else ("b", s_, i) for i in range(32)]:
+            return True
+    return False
